@@ -29,6 +29,18 @@ M = [
  ('cw leftmost: skips not reset', 'src/charwise/iter.rs', 'skips = 0;\n            }', 'skips = 1;\n            }', 1, ['lm_cw']),
  ('stats: heap bytes', 'src/bytewise.rs', 'self.states.len() * mem::size_of::<State>()', 'self.states.len() * mem::size_of::<u32>()', 1, ['stats']),
  ('remove_invalid_checks: dead slot skipped', 'src/bytewise/builder.rs', 'idx == ROOT_STATE_IDX || idx == DEAD_STATE_IDX || !helper.is_used_index(idx)', 'idx == ROOT_STATE_IDX || !helper.is_used_index(idx)', 1, ['build_bw']),
+ ('fails: chase starts at the root', 'src/nfa_builder.rs', 'let mut fail_id = s.fail;', 'let mut fail_id = ROOT_STATE_ID;', 1, ['pass_bw']),
+ ('fails: wrong break value', 'src/nfa_builder.rs', 'break child_fail_id;', 'break fail_id;', 1, ['pass_bw']),
+ ('fails: child not queued', 'src/nfa_builder.rs', '                q.push(child_id);', '                let _ = child_id;', 1, ['pass_bw']),
+ ('fails: link written to the parent', 'src/nfa_builder.rs', 'self.states[usize::from_u32(child_id)].borrow_mut().fail = new_fail_id;', 'self.states[state_id].borrow_mut().fail = new_fail_id;', 1, ['pass_bw']),
+ ('fails: queue index not advanced', 'src/nfa_builder.rs', 'qi += 1;', 'qi += 0;', 1, ['pass_bw']),
+ ('leftmost: output state not marked dead', 'src/nfa_builder.rs', 's.fail = DEAD_STATE_ID;', 's.fail = ROOT_STATE_ID;', 1, ['pass_bw']),
+ ('leftmost: dead not propagated', 'src/nfa_builder.rs', 'let new_fail_id = if fail_id == DEAD_STATE_ID {', 'let new_fail_id = if false {', 1, ['pass_bw']),
+ ('outputs: position off by one', 'src/nfa_builder.rs', 'u32::try_from(self.outputs.len() + 1).unwrap()', 'u32::try_from(self.outputs.len() + 2).unwrap()', 1, ['pass_bw']),
+ ('outputs: parent is own position', 'src/nfa_builder.rs', 'let parent = self.states[usize::from_u32(s.fail)].borrow().output_pos;', 'let parent = s.output_pos;', 1, ['pass_bw']),
+ ('outputs: no inheritance', 'src/nfa_builder.rs', 's.output_pos = self.states[usize::from_u32(s.fail)].borrow().output_pos;', 's.output_pos = None;', 1, ['pass_bw']),
+ ('outputs: length is char count', 'src/nfa_builder.rs', 'Output::new(output.0, output.1.get(), parent)', 'Output::new(output.0, 1, parent)', 1, ['pass_bw']),
+ ('build: value is position + 1', 'src/bytewise/builder.rs', 'V::try_from(i).map', 'V::try_from(i + 1).map', 1, ['wrap_bw']),
  ('cw builder: check holds child id', 'src/charwise/builder.rs', '.set_check(state_idx)', '.set_check(child_idx)', 1, ['build_cw']),
 ]
 def nth(s, sub, k):
